@@ -43,7 +43,7 @@ def sig_known(u, plan=None):
         hits.append("F5")
     if ready and eng in CR_ENGINES and ratio < 2.0 ** -14 and plan is None:
         hits.append("F23")          # extreme up-sampling; decided on the plan when one was exported
-    if plan is not None and cl.plan_load(plan) >= 2.0 ** 31:
+    if plan is not None and cl.plan_load(plan)[1] >= 2.0 ** 31:
         hits.append("F23")
     if cfg.get("viaio") and (int(cfg.get("itype", 0)) | int(cfg.get("otype", 0))) >= 8:
         hits.append("F21")
@@ -198,7 +198,14 @@ def stage_create(ctx, exe, n, known):
         for k, v in kinds.items():
             ctx.hist("dist_" + k, v.split(":")[0] if isinstance(v, str) else v)
     fill_qfields(units, exe)
-    cl.run_real(exe, units)
+
+    def solo(u):      # quotient of the rates overflows: the variable-rate engine hangs on it (F22)
+        a, b = cl.b2d(u.meta["cfg"]["ir"]), cl.b2d(u.meta["cfg"]["or"])
+        try:
+            return b != 0 and not math.isfinite(a / b)
+        except OverflowError:
+            return True
+    cl.run_real(exe, units, solo=solo, timeout=8)
     cl.run_model(units)
     verdicts = set()
     for u in units:
@@ -297,8 +304,9 @@ def stage_api(ctx, exe, n, known):
         # direct oracle of the sticky clause on the real answers: between the first stored error and the next clear /
         # seterr, every process/output answers that error and delivers nothing
         bad = sticky_oracle(u)
-        for l in u.real:
+        for op, l in zip(u.model_in, u.real):
             seen.add(l[:30])
+            ctx.hist("dist_api_answers", op.split()[0] + " -> " + l[:34])
         if bad:
             if "F25" in known and bad[0] == "split":
                 ctx.known("F25", known["F25"]["what"]); ctx.hist("known_hits", "F25")
@@ -387,11 +395,13 @@ def stage_working(ctx, units, nmax, known):
         pre = sig_known(u)
         if "F22" in pre or "F24" in pre or (a["engine"] in CR_ENGINES and up > 2.0 ** 22):
             return u, "skip-known", None, pre, None
+        if up > 2.0 ** 22:           # variable-rate engine asked for millions of output frames per input frame: nothing to run
+            return u, "skip-extreme", None, pre, None
         tr0 = cr.run_trace(exe, [cr.create_line(tcfg)], env, timeout=120)
         if not tr0.created:
             return u, "create-differs", tr0, pre, None
-        load = cl.plan_load(tr0.plan)
-        if load >= 2.0 ** 24:
+        load = cl.plan_load(tr0.plan)[0]
+        if load >= 2.0 ** 22:
             return u, "skip-memory", tr0, sig_known(u, tr0.plan), None
         ops, n = working_ops(common.Rng(cfg["ir"] ^ cfg["or"] ^ 5), tcfg, tr0.plan, up)
         tr = cr.run_trace(exe, ops, env, timeout=300)
@@ -402,6 +412,8 @@ def stage_working(ctx, units, nmax, known):
         ctx.count("evaluations")
         ctx.hist("working_runs", how)
         a = cl.kv(u.real[0])
+        if how == "skip-extreme":
+            continue
         if how == "skip-known":
             for h in pre:
                 if h in known and h in ("F22", "F24", "F23"):
@@ -475,7 +487,7 @@ def stage_pinned(ctx, exe, known):
     """Every listed finding of the pinned tree is replayed on purpose; a finding that no longer reproduces is reported
     in the evidence (the known_findings entry should then become `fixed`)."""
     units = [cl.Unit(ops, {"cfg": {"itype": 4, "otype": 4} if fid == "F25" else {}, "fid": fid, "expect": exp}) for fid, ops, exp in PINNED]
-    cl.run_real(exe, units, timeout=20, batch=1)
+    cl.run_real(exe, units, timeout=8, batch=1)
     cl.run_model(units)
     for u in units:
         fid, exp = u.meta["fid"], u.meta["expect"]
@@ -525,7 +537,7 @@ def run(ctx):
                "malloc succeeds (C20); runtime-spec fields handed over directly are inside their documented ranges (only the SOXR_* overrides are range-checked by the code)",
                "API misuse that dereferences NULL (processing before channels and ratio are set, NULL array of split buffers, input after end-of-input) is outside the property; "
                "the model marks it `misuse` and the harness does not execute it",
-               "streams of configurations whose plan reserves more than 2^24 frames per stage invocation (up-sampling by more than ~2000 with 8192-frame blocks) are not run (memory); "
+               "streams of configurations whose plan reserves more than 2^22 frames per stage invocation (up-sampling by more than ~500 with 8192-frame blocks) are not run (memory); "
                "their plans are still exported and checked")
     cr.report_broken(ctx, broken, "C09 correspondence and oracle on %d creates / %d API sequences found no failing input" % (
         ctx.cov.get("creates_compared", 0), ctx.cov.get("api_sequences_compared", 0)))
